@@ -218,7 +218,7 @@ def normalize_typevar(tvar: tp.TypeVar) -> type[tp.Any]:
     return tp.Any  # type: ignore[return-value]
 
 
-@compat.cache
+# (Not memoized: equal annotations may be spelled, and therefore print, differently.)
 def name(obj: tp.Union[type, refs.ForwardRef, tp.Callable]) -> str:
     """Safely retrieve the name of either a standard object or a type annotation.
 
@@ -239,7 +239,7 @@ def name(obj: tp.Union[type, refs.ForwardRef, tp.Callable]) -> str:
     return strobj.rsplit(".")[-1]
 
 
-@compat.cache
+# (Not memoized: equal annotations may be spelled, and therefore print, differently.)
 def qualname(obj: tp.Union[type, refs.ForwardRef, tp.Callable]) -> str:
     """Safely retrieve the qualname of either a standard object or a type annotation.
 
@@ -1331,7 +1331,7 @@ def isstructuredtype(t: type[tp.Any]) -> bool:
     )
 
 
-@compat.cache
+# (Not memoized: equal annotations may be spelled, and therefore print, differently.)
 def isgeneric(t: tp.Any) -> bool:
     """Test whether the given type is a typing generic.
 
@@ -1358,7 +1358,7 @@ def isgeneric(t: tp.Any) -> bool:
     return is_generic
 
 
-@compat.cache
+# (Not memoized: equal annotations may be spelled, and therefore print, differently.)
 def issubscriptedgeneric(t: tp.Any) -> bool:
     """Test whether the given type is a typing generic.
 
@@ -1495,7 +1495,8 @@ def istypealiastype(t: tp.Any) -> compat.TypeIs[compat.TypeAliasType]:
     return isinstance(t, (compat.TypeAliasType, te.TypeAliasType))
 
 
-@compat.cache
+# (Not memoized: the result is the argument itself for most annotations, and equal annotations
+#   may be written differently - `Optional[X]`, `X | None`, or with members in another order.)
 def unwrap(t: tp.Any) -> tp.Any:
     lt = None
     while lt is not t:
